@@ -383,3 +383,44 @@ func timed(r *core.Result, check, api, input string, f func()) (ok bool) {
 		return false
 	}
 }
+
+// edgePolys: polynomials whose evaluations sit at the 64-bit limb boundaries and at the half-range of the top
+// window of a limb (2^64-1, 2^128-1, 2^192-1, 0x81<<56, 2^64, 2^128 ...), sparse and dense. They reach the
+// table-based and the generic MSM with short scalars and pending carries through every API that commits.
+func edgePolys() []namedPoly {
+	m1 := func(e uint) *big.Int { return new(big.Int).Sub(pow2(e), bi(1)) }
+	hi := func(e uint) *big.Int { return new(big.Int).Lsh(bi(0x81), e) }
+	var ps []namedPoly
+	mk := func(name string, f func(i int) *big.Int) {
+		v := make([]*big.Int, 256)
+		for i := range v {
+			v[i] = new(big.Int).Mod(f(i), bigR)
+		}
+		ps = append(ps, namedPoly{name, v})
+	}
+	mk("edge-sparse-a", func(i int) *big.Int {
+		switch i {
+		case 3:
+			return m1(64)
+		case 77:
+			return m1(128)
+		}
+		return bi(0)
+	})
+	mk("edge-sparse-b", func(i int) *big.Int {
+		switch i {
+		case 0:
+			return m1(192)
+		case 4:
+			return hi(56)
+		case 255:
+			return hi(120)
+		}
+		return bi(0)
+	})
+	mk("edge-all-2^64-1", func(i int) *big.Int { return m1(64) })
+	mk("edge-cycle-2^(64k)-1", func(i int) *big.Int { return m1(uint(64 * (i%3 + 1))) })
+	mk("edge-cycle-2^(64k)", func(i int) *big.Int { return pow2(uint(64 * (i % 4))) })
+	mk("edge-cycle-0x81<<(64k+56)", func(i int) *big.Int { return hi(uint(64*(i%3) + 56)) })
+	return ps
+}
